@@ -3,7 +3,7 @@
     [startup_tls] (361-416), [Client::startup] (429-789) and the helpers of
     /repo/src/messages.rs [parse_params] (184-216), [parse_startup] (220-230),
     [md5_challenge] (68-88), [md5_hash_password] (233-244), [md5_hash_second_pass]
-    (246-259), [wrong_password] (370-404), [error_response(_terminal)] (324-368), and
+    (246-259), [wrong_password] (367-401), [error_response(_terminal)] (321-365), and
     /repo/src/auth_passthrough.rs [refetch_auth_hash] (126-138).
 
     Definitions only (all executable).  Lemmas: Proofs.v; property theorems: Props.v.
@@ -381,7 +381,7 @@ Definition read_password (s : bytes) : pw_result :=
          end
   end.
 
-(** ** MD5 (messages.rs:236-262).  [format!("{:x}", digest)]: two lower-case hex digits per byte. *)
+(** ** MD5 (messages.rs:233-259).  [format!("{:x}", digest)]: two lower-case hex digits per byte. *)
 
 Definition hex_digit (n : N) : byte := nth (N.to_nat (n mod 16)) hex_table 0%N.
 Fixpoint hex (s : bytes) : bytes :=
